@@ -105,6 +105,7 @@ def main():
         print(__doc__)
         return 2
     pid = args[0]
+    vlib.SUB = pid  # this check's own build sub-directory (concurrent checks of other properties never share files)
     tier = os.environ.get("VERIF_TIER", "quick")
     if "--tier" in args:
         tier = args[args.index("--tier") + 1]
@@ -232,7 +233,7 @@ def main():
             r = kres.get(hn)
             if r is None:
                 continue
-            kcmd = "(cd build/kani_%s && %s)" % (cname, r["cmd"].replace("harnesses::" + hn, "harnesses::<each of the %d harnesses listed in obligation_table>" % len(kspec["harnesses"])))
+            kcmd = "(cd build/%s/kani_%s && %s)" % (pid, cname, r["cmd"].replace("harnesses::" + hn, "harnesses::<each of the %d harnesses listed in obligation_table>" % len(kspec["harnesses"])))
             if kcmd not in checker_cmds:
                 checker_cmds.append(kcmd)
             solver_ms += r["s"] * 1000.0
@@ -355,7 +356,7 @@ def main():
     n_ob = len(obligations)
     n_dis = sum(1 for o in obligations if o.get("discharged"))
     rc = 0
-    os.makedirs(os.path.join(ROOT, "build", "replay"), exist_ok=True)
+    os.makedirs(os.path.join(vlib.BUILD, "replay"), exist_ok=True)
     lines = []
     for k, f in known_hits:
         lines.append("KNOWN-FINDING: property=%s %s (%s)" % (pid, k.get("what", ""), f["obligation"]))
@@ -366,7 +367,7 @@ def main():
     if violations:
         rc = 1
         for i, f in enumerate(violations):
-            rp = os.path.join(ROOT, "build", "replay", "%s_%d.json" % (pid, i))
+            rp = os.path.join(vlib.BUILD, "replay", "%s_%d.json" % (pid, i))
             unit_items = [x for x in functions if x["id"] == f.get("owner") or x["id"] == f.get("clause_unit")]
             if f.get("failing_input") is not None:
                 rep = f.get("replay") or {}
